@@ -14,6 +14,8 @@ CLAIMS = {
              note="Trusted: Lean kernel; hand-written PE model; e_lfanew >= 64 in theorems; success of the re-digest is checked dynamically, not proved (pe_digest_ignores_signature_full open).", tech=PROOF),
  "C03": dict(text="PARTIAL. PE/COFF: Lean theorems pe_payload_preserved, pe_refusal_is_clean, pe_patch_constructible (every input byte below the old end of image except the 8-byte directory entry is where it was; patch is constructible so C12 exactness applies); tied by differential execution and by a byte-level predicate evaluated on the real output. Other formats: exercised only.",
              note="Trusted: as C08; FixPEChecksum is outside the theorem.", tech=PROOF),
+ "C02": dict(text="PARTIAL. PE/COFF: Lean theorems pe_hashed_injective (the hashed stream determines every protected byte and the positions of the carve-outs), pe_tamper_evident (under collision-freeness on the two streams), pe_no_trailing; tied by model-directed single-byte mutation of really signed images against authenticode.VerifyPE (both directions: protected => rejected, unprotected => still accepted). CMS layer and other formats: not yet modelled.",
+             note="Trusted: Lean kernel; hand-written PE model; PKCS#7 verification and X.509 are outside the model (mutations inside the blob are not predicted).", tech="Lean 4 proof over executable model + model-directed mutation correspondence"),
  "C01": dict(text="PARTIAL. PE/COFF: Lean theorem pe_sign_then_redigest_partial (patch applies to the predicted bytes through the real Add/rewrite path; any successful re-digest hashes the signed stream, for every hash function); full sign-then-verify statement kept open as pe_sign_then_verify_full and checked per generated file on model and code. Other formats and the option table: exercised only.",
              note="Trusted: as C08; RSA/ECDSA/PKCS#7 are outside the model.", tech=PROOF),
 }
